@@ -133,14 +133,14 @@ def run_impl(case):
     data = {v: case["data"][v] for v in vs}
     struct = case.get("struct") or ()
     kw = {"sampling": (case["period"][0], case["period"][1], 0.1)} if case.get("period") else {}
-    on = impl.run_online_discrete(text, vs, data, case["n"], extra_decl=extra, struct=struct, **kw)
+    on = impl.run_online_discrete(text, vs, data, case["n"], extra_decl=extra, struct=struct, extra_entries=case.get("extra_entries"), **kw)
     off = impl.eval_offline_discrete(text, vs, data, case["n"], extra_decl=extra, struct=struct, **kw)
     return text, on, off
 
 
 def check_case(ctx, case, m_on, m_rho, m_gen=None):
     text, on, off = run_impl(case)
-    rep = {"period": case.get("period"), "struct": list(case.get("struct") or ()), "spec": text, "data": case["data"], "n": case["n"], "formula": F.to_proto(case["f"]),
+    rep = {"extra_entries": case.get("extra_entries"), "period": case.get("period"), "struct": list(case.get("struct") or ()), "spec": text, "data": case["data"], "n": case["n"], "formula": F.to_proto(case["f"]),
            "asserts": [[nm, F.to_proto(b)] for nm, b in case["asserts"]] if case["asserts"] else None,
            "monitor": "discrete online", "impl_online": on, "impl_offline": off, "model_online": m_on, "model_rho": m_rho}
     if on[0] != "ok":
@@ -198,6 +198,8 @@ def explore(ctx, rng, count):
         c["struct"] = sorted(v for v in (all_vars(c) or ["a"]) if rng.random() < 0.5) if rng.random() < 0.15 else []
         # the same number of samples under another sampling period: bounds written as durations (2 s: [2k]; 500 ms: [500k ms])
         c["period"] = rng.choice([(2, "s"), (500, "ms")]) if rng.random() < 0.15 else None
+        # an entry that is not an input of the specification somewhere in every row given to update()
+        c["extra_entries"] = [rng.randint(0, 3), rng.choice(["aux", "out", "zz9"])] if rng.random() < 0.15 else None
         if not disc.known_region(ctx, c, REGIONS):
             cases.append(c)
         else:
@@ -234,7 +236,7 @@ def explore(ctx, rng, count):
 
 def case_of_replay(obj):
     c = {"stream": "replay", "f": F.from_proto(obj["formula"]), "n": obj["n"],
-         "data": {k: [float(x) for x in v] for k, v in obj["data"].items()}, "asserts": None, "struct": obj.get("struct") or [], "period": obj.get("period")}
+         "data": {k: [float(x) for x in v] for k, v in obj["data"].items()}, "asserts": None, "struct": obj.get("struct") or [], "period": obj.get("period"), "extra_entries": obj.get("extra_entries")}
     if obj.get("asserts"):
         c["asserts"] = [(nm, F.from_proto(b)) for nm, b in obj["asserts"]]
     return c
